@@ -17,6 +17,8 @@ pub struct MapShape {
     /// some tokens are range mappings (then every non-empty line has a token at column 0, so a
     /// lookup never falls back across lines)
     pub ranges: bool,
+    /// segments of a line listed out of column order in the serialised map
+    pub unsorted: bool,
 }
 
 pub fn gen_shape(rng: &mut Rng) -> MapShape {
@@ -36,6 +38,7 @@ pub fn gen_shape(rng: &mut Rng) -> MapShape {
         sources_content: rng.chance(1, 3),
         coverage: *rng.pick(&[0u8, 0, 0, 0, 0, 0, 0, 1, 1, 2]),
         ranges: rng.chance(1, 5),
+        unsorted: rng.chance(1, 5),
     }
 }
 
@@ -44,6 +47,9 @@ pub fn gen_orig_map(rng: &mut Rng, program: &str, shape: &MapShape) -> Map {
     let mut m = Map::default();
     m.file = Some("out.js".into());
     m.source_root = shape.source_root.clone();
+    if shape.unsorted {
+        m.shuffle_salt = 1 + rng.next_u64() % 1_000_000;
+    }
     let unicode = rng.chance(1, 3);
     let dup = rng.chance(1, 6);
     for i in 0..shape.sources {
